@@ -8,7 +8,7 @@ CONSTANTS
   MaxL = 6
   ReaderUnwraps = TRUE
   SortsByIndex = TRUE
-  Lens = {0, 1, 2, 3, 4, 5, 6, 16, 17, 18, 19, 20, 23, 24, 25, 30, 31, 36, 42, 48, 54, 55, 59, 60, 61, 66, 72, 78, 84}
+  Lens = {0, 1, 2, 3, 4, 5, 6, 16, 17, 18, 19, 20, 23, 24, 25, 30, 31, 36, 42, 48, 54, 55, 59, 60, 61, 66, 72, 78, 84, 90, 96, 102}
   Batches = {0, 1, 2, 3}
   Record = FALSE
   KnownMask = {"C14-cipher-padding-exceeds-max"}
